@@ -826,4 +826,97 @@ theorem missing_dirs_exact (c : CSet) (t : Nat) (hwf : WF c) (habs : ∀ e ∈ c
 
 example : AbsNormal (mkEntry "/a/b//c".toList 0 1).loc := normpath_abs "/a/b//c".toList (by decide)
 
+/-! ## sets are values: object identity -/
+
+/-- a value-returning method (difference, intersection, union, symmetric_difference, change_offset) hands back a *new*
+object holding its result — never `self`, whatever the arguments — and leaves every existing object as it was -/
+theorem fresh_result_is_new_object (h : Heap) (i : Nat) (f : CSet → Option CSet) (c r : CSet)
+    (hi : h[i]? = some c) (hf : f c = some r) :
+    h.length ≠ i ∧ (h.step (.fresh i f))[h.length]? = some r ∧ ∀ j, j < h.length → (h.step (.fresh i f))[j]? = h[j]? := by
+  have hlt : i < h.length := by
+    rcases Nat.lt_or_ge i h.length with hl | hl
+    · exact hl
+    · rw [List.getElem?_eq_none hl] at hi; cases hi
+  refine ⟨by omega, ?_, ?_⟩
+  · simp [Heap.step, hi, hf]
+  · intro j hj
+    simp [Heap.step, hi, hf, List.getElem?_append_left hj]
+
+example : ([ofList [mkEntry "/a".toList 0 1]] : Heap)[0]? = some (ofList [mkEntry "/a".toList 0 1]) ∧
+    changeOffset (ofList [mkEntry "/a".toList 0 1]) "/".toList "/".toList = some (ofList [mkEntry "/a".toList 0 1]) := by
+  decide
+
+/-- one call: object `j` afterwards is object `j` before with the call's edit of `j` (if any) applied -/
+theorem step_object (h : Heap) (s : Step) (j : Nat) (c : CSet) (hj : h[j]? = some c) :
+    (h.step s)[j]? = some (match s.editOf j with | some f => f c | none => c) := by
+  have hlt : j < h.length := by
+    rcases Nat.lt_or_ge j h.length with hl | hl
+    · exact hl
+    · rw [List.getElem?_eq_none hl] at hj; cases hj
+  cases s with
+  | inPlace i f =>
+    by_cases hij : i = j
+    · subst hij
+      have hc : h[i] = c := by
+        rw [List.getElem?_eq_getElem hlt] at hj; exact Option.some.inj hj
+      simp [Heap.step, Step.editOf, hlt, hc]
+    · simp only [Heap.step, Step.editOf, if_neg hij]
+      cases hi : h[i]? with
+      | none => simpa using hj
+      | some ci => simpa [List.getElem?_set_ne hij] using hj
+  | fresh i f =>
+    simp only [Heap.step, Step.editOf]
+    split
+    · split
+      · rw [List.getElem?_append_left hlt]; exact hj
+      · exact hj
+    · exact hj
+
+/-- **Sets are independent maps.**  After any sequence of calls on any objects, object `j` is its initial value with
+exactly the in-place calls addressed to `j` applied, in order: no call on another object — in particular on a set that
+was computed from `j`, or that `j` was computed from — shows up in it. -/
+theorem object_history (l : List Step) (h : Heap) (j : Nat) (c : CSet) (hj : h[j]? = some c) :
+    (h.run l)[j]? = some ((l.filterMap (Step.editOf j)).foldl (fun c f => f c) c) := by
+  induction l generalizing h c with
+  | nil => simpa [Heap.run] using hj
+  | cons s l ih =>
+    have h1 := step_object h s j c hj
+    have h2 := ih (h.step s) _ h1
+    rw [show Heap.run h (s :: l) = Heap.run (h.step s) l from rfl, h2]
+    cases he : s.editOf j with
+    | none => simp [he]
+    | some f => simp [he]
+
+example : Heap.run [[], []] [.inPlace 0 (fun c => add c (mkEntry "/a".toList 0 1)), .inPlace 1 (fun c => add c (mkEntry "/b".toList 1 2))]
+    = [[mkEntry "/a".toList 0 1], [mkEntry "/b".toList 1 2]] := by decide
+
+/-- relocation in particular: `r = c.change_offset(old, new)` — any offsets, also the same prefix on both sides — is
+object 1 next to the source (object 0); calls that do not edit the source leave it `c`, calls that do not edit the
+relocated set leave it `r` -/
+theorem relocated_set_independent (c r : CSet) (old new : Path) (l : List Step) (hr : changeOffset c old new = some r) :
+    ((∀ s ∈ l, s.editOf 0 = none) → (Heap.run [c] (Step.relocate 0 old new :: l))[0]? = some c) ∧
+    ((∀ s ∈ l, s.editOf 1 = none) → (Heap.run [c] (Step.relocate 0 old new :: l))[1]? = some r) := by
+  have hstep : Heap.step [c] (Step.relocate 0 old new) = [c, r] := by
+    simp [Heap.step, Step.relocate, hr]
+  have hnil : ∀ (j : Nat), (∀ s ∈ l, s.editOf j = none) → l.filterMap (Step.editOf j) = [] := by
+    intro j hall
+    exact List.filterMap_eq_nil_iff.2 hall
+  constructor
+  · intro hall
+    rw [show Heap.run [c] (Step.relocate 0 old new :: l) = Heap.run (Heap.step [c] (Step.relocate 0 old new)) l from rfl, hstep,
+      object_history l [c, r] 0 c rfl, hnil 0 hall]
+    rfl
+  · intro hall
+    rw [show Heap.run [c] (Step.relocate 0 old new :: l) = Heap.run (Heap.step [c] (Step.relocate 0 old new)) l from rfl, hstep,
+      object_history l [c, r] 1 r rfl, hnil 1 hall]
+    rfl
+
+/-- a relocation onto the same prefix (respelled), then `add` on the relocated set and `discard` on the source: each set
+sees only its own edit -/
+example : Heap.run [ofList [mkEntry "/i/a".toList 0 1, mkEntry "/i/b".toList 1 2]]
+      [Step.relocate 0 "/i/".toList "/i/.".toList, .inPlace 1 (fun c => add c (mkEntry "/i/c".toList 0 3)),
+       .inPlace 0 (fun c => discard c (.path "/i//a/".toList))]
+    = [[mkEntry "/i/b".toList 1 2],
+       [mkEntry "/i/a".toList 0 1, mkEntry "/i/b".toList 1 2, mkEntry "/i/c".toList 0 3]] := by decide
+
 end Pkgcore.C22
